@@ -17,7 +17,8 @@ Hdr(j) == [chunk_id |-> j.chunk_id, chunk_size |-> j.chunk_size, format |-> j.fo
 
 (* C13: header made by init + set_num_frames, whatever the structure held before *)
 InitOK(ev) ==
-  LET h == SetFrames(InitHeader(ev.rate, ev.ch, ev.f), ev.frames)
+  LET h0 == InitHeader(ev.rate, ev.ch, ev.f)
+      h == SetFrames(IF ev.twice = 1 THEN SetFrames(h0, ev.frames0) ELSE h0, ev.frames)
       bytes == EncodeBytes(h) IN
   /\ Hdr(ev.h) = h                       \* every field, including the ones init does not mention (zero)
   /\ ev.val = 0                          \* validates
